@@ -13,7 +13,7 @@ const NON_IDENTIFIERS: &[&str] = &["a.b", "1a", "", "a b", "a-b", "(", "é(", " 
 /// Identifier tables over the closed character pool the generator uses (independent of the
 /// unicode-id-start crate).
 fn is_start(c: char) -> bool {
-    c.is_ascii_alphabetic() || matches!(c, '$' | '_' | 'é' | 'π' | '变' | '𝒳' | 'ü' | 'λ')
+    c.is_ascii_alphabetic() || matches!(c, '$' | '_' | 'é' | 'π' | '变' | '𝒳' | '日' | '本')
 }
 fn is_continue(c: char) -> bool {
     is_start(c) || c.is_ascii_digit() || c == '\u{200c}' || c == '\u{200d}'
@@ -245,6 +245,10 @@ pub fn run(ctx: &mut Ctx) {
     assert_eq!(ref_token_text(&["[foo,bar]"], 0, 0), None);
     assert_eq!(ref_token_text(&["\"😀\";function é(){}"], 0, 14).as_deref(), Some("é"));
     assert_eq!(ref_token_text(&["ab"], 0, 2), None);
+    // every non-ASCII character the generators can emit must be classified (a token may point anywhere)
+    assert_eq!(ref_token_text(&["\"éfunction日本\";"], 0, 2).as_deref(), Some("function日本"));
+    assert_eq!(ref_token_text(&["日本x"], 0, 0).as_deref(), Some("日本x"));
+    assert_eq!(ref_token_text(&["😀a"], 0, 0), None);
 
     let miri = ctx.mode == "miri";
     let total = if miri { 32 } else { ctx.size(40_000, 1_500_000) };
@@ -416,7 +420,7 @@ pub fn run(ctx: &mut Ctx) {
                                     );
                                     break 'outer;
                                 } else {
-                                    ctx.violation("index-resolution-differs", "index-sections", n, format!("index map, section at line {off}: {name:?} at ({ql},{qc}) resolves to {g:?}, reference {w:?}"), data());
+                                    ctx.violation("index-resolution-differs", "index-sections", n, format!("index map, section at line {off}: {name:?} at ({ql},{qc}) resolves to {g:?}, reference {w:?} (the known section-relative deviation would give {deviant:?})"), data());
                                     break 'outer;
                                 }
                             }
